@@ -93,11 +93,11 @@ func (ex *Exec) applicableKnown(kind, msg, pos string) (preds []string, ids []*K
 
 // hardCheck decides a conjunction: incremental solver first, then one-shot
 // processes of the other solvers with the long timeout.
-func (w *Worker) hardCheck(conds []*Term, syms []*Term, extra string) (Result, map[string]uint64, int64) {
+func (w *Worker) hardCheck(pc []*Term, more []*Term, syms []*Term, extra string) (Result, map[string]uint64, int64) {
 	t0 := time.Now()
-	r, m := w.solver.CheckModel(conds, syms, extra)
+	r, m := w.solver.CheckModel(pc, more, syms, extra)
 	if r == Unknown && !w.cfg.NoFallback {
-		script := Script(conds, syms, extra)
+		script := Script(append(append([]*Term{}, pc...), more...), syms, extra)
 		to := time.Duration(w.cfg.HardTimeoutS) * time.Second
 		for _, kind := range []string{"z3", "cvc5", "z3-new"} {
 			rr, mm, _ := OneShot(kind, script, to, syms)
@@ -129,7 +129,7 @@ func (ex *Exec) checkObligation(cond *Term, kind, msg string, pos token.Pos) {
 		}
 		return
 	}
-	conds := append([]*Term{}, ex.pc...)
+	var conds []*Term
 	if !neg.IsConst() {
 		conds = append(conds, neg)
 	}
@@ -138,7 +138,7 @@ func (ex *Exec) checkObligation(cond *Term, kind, msg string, pos token.Pos) {
 	for _, p := range preds {
 		fmt.Fprintf(&extra, "(assert (not %s))\n", p)
 	}
-	r, m, dt := ex.w.hardCheck(conds, ex.symOrder, extra.String())
+	r, m, dt := ex.w.hardCheck(ex.pc, conds, ex.symOrder, extra.String())
 	ob.TimeMs = dt
 	switch r {
 	case Sat:
@@ -150,7 +150,7 @@ func (ex *Exec) checkObligation(cond *Term, kind, msg string, pos token.Pos) {
 		ob.Result = "holds"
 		// were known findings needed to get unsat?
 		for i, p := range preds {
-			rr, mm, _ := ex.w.hardCheck(conds, ex.symOrder, "(assert "+p+")\n")
+			rr, mm, _ := ex.w.hardCheck(ex.pc, conds, ex.symOrder, "(assert "+p+")\n")
 			if rr == Sat {
 				kob := ob
 				kob.Result = "known"
@@ -201,7 +201,7 @@ func (ex *Exec) finishPath(res *PathResult) {
 	if !take {
 		return
 	}
-	r, m := ex.w.solver.CheckModel(ex.pc, ex.symOrder, "")
+	r, m := ex.w.solver.CheckModel(ex.pc, nil, ex.symOrder, "")
 	if r != Sat {
 		return
 	}
